@@ -190,3 +190,33 @@ PROPS["C18"] = {
     "min_nontrivial": {"quick": 100, "thorough": 100},
     "assumptions": ["8 MiB is the default main-thread stack (ulimit -s 8192)", "the hooks-on binary is used only for the stack measurements shown in evidence, never for verdicts"],
 }
+
+PROPS["C03"] = {
+    "shards": {"quick": 16, "thorough": 16},
+    "rule": ("session monitor: statements are fed one at a time into one shared heap + environment; after each one the environment is compared with a model (name -> snapshot): "
+             "I1 every earlier name still bound to the identical, unchanged value; I2 new names only among the statement's syntactic top-level targets (nothing leaks from do-blocks, "
+             "calls, callbacks, failed statements); I3 keywords / built-ins / inputs / constants never become keys and inputs keeps its value; I4 a statement whose outermost target is "
+             "bound fails and changes nothing; I5 reading through the name gives the snapshot; I6 shadowing locals / parameters have their own value inside; plus heap-cell "
+             "immutability and the H3 get_mut log. Workload: ALL sequences of length <= 4 (quick) / <= 5 (thorough) over a 35-statement alphabet (bind, rebind, alias, closures, "
+             "nested assignment in operand / list / record / conditional, do-block and parameter shadowing, callbacks, output forms, failing statements of every kind), sampled longer "
+             "sequences, and random sessions of 20-200 statements on 6 names. non-trivial = a bound name is mentioned by a later statement"),
+    "exhaustive": True,
+    "exhaustive_subspaces": ["statement sequences of length <= 4 (quick) / <= 5 (thorough) over the 35-template alphabet"],
+    "min_nontrivial": {"quick": 100000, "thorough": 100000},
+    "assumptions": ["`inf` / `infinity` are special-cased identifiers that are neither keywords nor constants; they are kept out of the name set (no claim either way)"],
+}
+
+PROPS["C04"] = {
+    "shards": {"quick": 8, "thorough": 16},
+    "rule": ("(1) 18 closure definitions with a model of their result (capturing numbers / strings / lists / records / closures over two levels, defined at top level, in do-blocks "
+             "with and without shadowing, returned from functions, curried, recursive through the own name, captured inside nested lambdas / conditionals / do-blocks / record "
+             "shorthand / spread / call-target / index positions, optional parameters): the call right after the definition must equal the model, then the same call is made from 19 "
+             "calling contexts (colliding parameter applied immediately, colliding do-local, via / map / reduce / into callbacks, stored functions defined later, failed rebinding "
+             "attempts, aliasing, nested functions with shadowing do-blocks, callbacks with colliding parameters, inside data and conditionals, sort_by key) with the colliding name "
+             "drawn from the captured names, the parameter names and an unrelated name; every context must give the identical value; (2) parameter-shadowing cases; "
+             "(3) ALL parameter lists req^a opt^b rest^c (a,b in 0..3, c in 0..1) x argument counts 0..n+3, direct and spread calls, against model::bind_args. "
+             "non-trivial = the definition-time call succeeds and the context binds a colliding name"),
+    "exhaustive_subspaces": ["parameter shapes x argument counts"],
+    "min_nontrivial": {"quick": 2000, "thorough": 2000},
+    "assumptions": ["parameter / local / captured names are plain names (a name spelling a built-in is turned into the built-in at parse time; not judged)"],
+}
